@@ -195,5 +195,6 @@ Definition group_apply (v : cview) (g : cgroup) : option cview :=
   | None => None
   end.
 
+Definition cview0 : cview := mkV [] [] [] [] [].
 Definition conc_ok (gs : list cgroup) : bool :=
-  match fold_opt group_apply (mkV [] [] [] [] []) gs with Some _ => true | None => false end.
+  match fold_opt group_apply cview0 gs with Some _ => true | None => false end.
